@@ -575,7 +575,7 @@ func init() {
 		Control{Name: "renderer-mutated-in-AppendBlock", Props: []string{"C19", "C10"}, File: "html_renderer.go",
 			Old: "	state := &renderState{\n		HTMLRenderer: r,", New: "	if r.ReferenceMap == nil {\n		r.ReferenceMap = ReferenceMap{}\n	}\n	state := &renderState{\n		HTMLRenderer: r,", Expect: "EFF-R/(*HTMLRenderer).AppendBlock"},
 		Control{Name: "format-rewrites-source", Props: []string{"C19", "C20"}, File: "format/format.go",
-			Old: "			markerBytes := spanSlice(source, marker.Span())\n", New: "			markerBytes := spanSlice(source, marker.Span())\n			if markerBytes[0] == '+' {\n				markerBytes[0] = '-'\n			}\n", Expect: "EFF-R/format.preBlock"},
+			Old: "			markerBytes := spanSlice(source, marker.Span())\n", New: "			markerBytes := spanSlice(source, marker.Span())\n			if markerBytes[0] == '+' {\n				markerBytes[0] = '-'\n			}\n", Expect: "format.preBlock"},
 		Control{Name: "neg-render-buffer-from-sync-pool", Props: []string{"C19"}, Negative: true, File: "html_renderer.go",
 			Old: "	var buf []byte\n	for i, b := range blocks {", New: "	buf := bufPool.Get().([]byte)\n	defer bufPool.Put(buf)\n	for i, b := range blocks {",
 			Edits: [][2]string{{"type renderState struct {", "var bufPool = sync.Pool{New: func() any { return []byte(nil) }}\n\ntype renderState struct {"}, {"\t\"strings\"\n\t\"unicode/utf8\"\n\n\t\"golang.org/x/net/html/atom\"", "\t\"strings\"\n\t\"sync\"\n\t\"unicode/utf8\"\n\n\t\"golang.org/x/net/html/atom\""}}},
